@@ -673,7 +673,7 @@ def _b_model_file(seed, tier):
     for it in range(N):
         d = tempfile.mkdtemp(prefix='m', dir=base)
         try:
-            case = c15.write_case(rng, d)
+            case = c15.write_case(rng, d, combo=(None, None))      # (this item writes its own [Binning] section below)
             size = rng.choice(['heavy', 'light', 'lighter'])
             par, out = os.path.join(d, 'in.par'), os.path.join(d, 'out.h5')
             text = c15.par_text(case) + '\n[Binning]\nbin_type = manual\nwavelength_res = 0.8, 8.0, %d\naccurate = %s\n' % (rng.choice([20, 50]), rng.choice(['True', 'False']))
